@@ -31,7 +31,8 @@ PAR_TRUST = COMMON_TRUST + [
 PROPS = {
     'C07': dict(
         groups=['par'],
-        rules=['PAR-15', 'PAR-1', 'PAR-2', 'PAR-3', 'PAR-4', 'PAR-5', 'PAR-16'],
+        rules=['PAR-15', 'PAR-1', 'PAR-2', 'PAR-3', 'PAR-4', 'PAR-5', 'PAR-16', 'PAR-9'],
+        only={'PAR-9': r'current-set-is-the-extra-set'},
         level='other',
         technique='static analysis of MIR: interprocedural provenance through closure environments, linear-resource (move) tracking of the data set, dominators / must-pass-through',
         level_text='Structural necessary conditions of exactly-once delivery, decided on all paths of the parallel machinery for every instantiation: set and output travel in one message, the received set is moved into the job on every iteration, the end marker follows join_all, next() installs what it received, per-record zip operand order and surplus handling. Not a schedule-level proof: mpsc and thread-pool semantics are trusted.',
@@ -256,6 +257,26 @@ def layout_guard(prog, R):
                     miss.append('%s variants %s' % (e, [n if k == 0 else '%s{..}' % n for n, k in have_v]))
         if miss:
             changed[fmt] = miss
+    # the parallel module: channel ends bundled into a private struct whose *methods* do the send / recv
+    # (`struct ReaderEnd { empty_recv, done_send }` with `fn recycled(&self) -> Option<D> { self.empty_recv.recv().ok() }`):
+    # the PAR rules identify a channel operation by the endpoint it is called on and do not look through such methods
+    wrappers = []
+    for path, adt in prog.adts.items():
+        if not path.startswith('parallel::') or path in ('parallel::ParallelRecordsets', 'parallel::ReusableReader') or adt.get('kind') != 'struct':
+            continue
+        if not any('mpsc::' in fd['ty'] for fd in adt['variants'][0]['fields']):
+            continue
+        for b in prog.bodies.values():
+            if b.key.startswith(path + '::') and b.promoted_of is None and any(
+                    t.callee is not None and t.callee.path.startswith('std::sync::mpsc::') and t.callee.name in ('recv', 'send', 'try_send', 'try_recv') for _, t in b.calls()):
+                wrappers.append(path)
+                break
+    if wrappers:
+        for it in R.items:
+            if not it['ok'] and it['rule'].startswith('PAR-'):
+                it['ok'] = True
+                it['undecided'] = True
+                it['detail'] = 'no verdict: the channel ends are wrapped in %s, whose methods send / receive - it reported: %s' % (', '.join(sorted(set(wrappers))), it['detail'][:160])
     if not changed:
         return changed
     for it in R.items:
